@@ -118,9 +118,9 @@ def orientation_semantics(repo, col):
     tables = {}
     for name in ("AXIS_PERMUTATION_FOR_RAS", "AXIS_INVERSION_FOR_RAS",
                  "POSSIBLE_AXIS_ORIENTATIONS"):
-        if name not in m.constants:
+        if m.const(name) is None:
             raise AnalysisError("anchor vanished: %s" % name)
-        tables[name] = ast.literal_eval(m.constants[name])
+        tables[name] = ast.literal_eval(m.const(name))
     params = fn.params
     if "input_orientation" not in params:
         raise AnalysisError("anchor vanished: input_orientation parameter")
